@@ -758,22 +758,29 @@ impl<C: CellType> OptRebuild<'_, C> {
                                 None,
                             ];
                         } else if inc.variables().all(|x| constant.contains(&x)) {
-                            if let Some(m) = mul
-                                .wrapping_pow(c)
-                                .wrapping_mul(mul)
-                                .wrapping_add(C::NEG_ONE)
-                                .wrapping_div(mul.wrapping_add(C::NEG_ONE))
-                            {
-                                return [
-                                    Some(
-                                        Expr::val(mul.wrapping_pow(c))
-                                            .mul(Expr::var(var))
-                                            .add(Expr::val(m).mul(inc)),
-                                    ),
-                                    None,
-                                    None,
-                                ];
+                            // Sum of `mul^i` for `i` in `0..c`, by repeated squaring. (A
+                            // division by `mul - 1` is not unique when `mul` is odd.)
+                            let (mut pow, mut m) = (C::ONE, C::ZERO);
+                            let (mut step_pow, mut step_sum) = (mul, C::ONE);
+                            let mut count = c;
+                            while count != C::ZERO {
+                                if count.is_odd() {
+                                    m = m.wrapping_add(pow.wrapping_mul(step_sum));
+                                    pow = pow.wrapping_mul(step_pow);
+                                }
+                                step_sum = step_sum.wrapping_mul(C::ONE.wrapping_add(step_pow));
+                                step_pow = step_pow.wrapping_mul(step_pow);
+                                count = count.wrapping_shr(1);
                             }
+                            return [
+                                Some(
+                                    Expr::val(pow)
+                                        .mul(Expr::var(var))
+                                        .add(Expr::val(m).mul(inc)),
+                                ),
+                                None,
+                                None,
+                            ];
                         }
                     }
                 }
